@@ -29,9 +29,10 @@ Lemma ptoks_app : forall A B pos, ptoks pos (A ++ B) = ptoks pos A ++ ptoks (pos
 Proof.
   induction A as [|p A IH]; intros B pos.
   - cbn [app ptoks flat flat_map]. unfold nlen; cbn [length]. rewrite N.add_0_r. reflexivity.
-  - destruct p as [k v|s]; cbn [app ptoks].
+  - destruct p as [k v|s|d s]; cbn [app ptoks].
     + rewrite IH. change (flat (PTok k v :: A)) with (render_piece (PTok k v) ++ flat A). rewrite nlen_app, N.add_assoc. reflexivity.
     + rewrite IH. change (flat (PSep s :: A)) with (s ++ flat A). rewrite nlen_app, N.add_assoc. reflexivity.
+    + rewrite IH. change (flat (PBlk d s :: A)) with (render_piece (PBlk d s) ++ flat A). rewrite nlen_app, N.add_assoc. reflexivity.
 Qed.
 
 Lemma layout_wfb_type : forall t L, wf_ty t = true -> layout_wfb L = true -> bound_ok (flat L) = true ->
